@@ -31,6 +31,15 @@ CLAIMED = {
         technique='loop-invariant contract on real source, pyvc symbolic execution -> z3',
         design_ref='7/C19',
     ),
+    'C21': dict(
+        text='Per-iteration decision contract of retry_transient_errors_with_debug_string and sync_retry_transient_errors for every number of previous '
+        'failures (loop invariant tries == #failures): re-raise iff the error is not retryable per the spec table, raise exactly the error f raised, '
+        'sleep exactly delay_ms_for_try(#failures)/1000, return f\'s value unchanged; delay_ms_for_try bounds [min(c//2,max), min(c,max)] proved for all arguments.',
+        note=COMMON_NOTE + 'The operation f is an oracle; the three classifier functions are uninterpreted predicates (their bodies are not under contract); '
+        'random.randrange(n) in [0,n); division by 1000.0 treated as real division.',
+        technique='per-iteration contract + loop invariant on real source, pyvc -> z3',
+        design_ref='7/C21',
+    ),
 }
 
 NOT_YET = 'not yet brought within the verifier\'s reach in this build (planned in DESIGN.md section 7); no claim is made'
